@@ -189,7 +189,9 @@ def judge(d):
     inside = True
     for ci, (tmpl, pos, R) in enumerate(comps):
         half = (np.asarray(tmpl.shape) - 1) / 2 + 1
-        if np.any(pos[:, 0] - half[0] < 0) or np.any(pos[:, 0] + half[0] > vol[0] - 1):
+        # the 2-D path has no top face (its internal depth follows the deepest molecule), so only the upper side must
+        # lie inside the 3-D volume; molecules straddling z = 0 are clipped in both and stay comparable
+        if np.any(pos[:, 0] + half[0] > vol[0] - 1):
             inside = False
     if inside:
         with warnings.catch_warnings():
